@@ -40,9 +40,10 @@ D1 = ("{{ render \"p\" }} is emitted through a fast path that writes the rendere
       "is not the context's (emitter_statements.go `case *ast.Show`: no format/context test, unlike canOptimizeShowMacro; "
       "run.go OpCallMacro `newRenderer(vm.renderer.out)`), while {%% var v = render \"p\" %%}{{ v }} and the macro form escape "
       "it: %s partial in a %s host, %s")
-D2 = ("inside a macro with an explicit result type the lexer falls back to the FILE's context after an HTML tag "
-      "(lexer.go `l.ctx = l.tag.ctx`), so the hand-expanded form `{%% macro K %s %%}...<i>...{{ s }}{%% end %%}` in a %s file "
-      "escapes s for %s instead of the macro's format: the %s")
+D2 = ("inside a macro with an explicit result type the lexer falls back to the FILE's tag context after an HTML tag "
+      "(lexer.go `l.ctx = l.tag.ctx; l.tag.ctx = fileContext`), so the hand-expanded form "
+      "`{%% macro K %s %%}...<i>...{{ s }}{%% end %%}` in a %s file shows s in context %s (the file's own context from the second "
+      "tag of a .txt/.js file on) instead of the macro's: the %s")
 FMT_TYPE = {"txt": "string", "html": "html", "md": "markdown", "js": "js"}
 PLACE = {"text": "content", "attr": "quoted attribute value", "script": "<script>"}
 
@@ -75,19 +76,20 @@ def _proposed():
                                 "signature": {"fam": "compose", "kind": "render", "rels": "*", "outer": hf, "inner": pf,
                                               "ctx": pl, "how": "output", "direct": "raw-inclusion", "tag": "*"},
                                 "what": D1 % ("." + pf, "." + hf, PLACE[pl])})
-    # D2: a tag in the body of a macro whose explicit type is html/markdown but not what a tag of the file resets the
-    # lexer to (Markdown in a Markdown file, HTML elsewhere).  Only the hand-expanded forms declare such macros.
+    # D2: a tag in the body of a macro whose explicit type is html/markdown and not the file's format (after a tag the
+    # lexer is in the file's tag context: Markdown in a Markdown file, HTML elsewhere - and, in .txt/.js files, the file's
+    # own context from the second tag on).  Only the hand-expanded forms declare such macros.
     for kind, rel, what in (("import", "import=local", "imported macro differs from its local declaration"),
                             ("render", "direct=expanded", "rendered file differs from its macro expansion")):
         for hf in ("txt", "html", "md", "js"):
             for pf in ("html", "md"):
-                if pf == _tag_ctx(hf):
+                if pf == hf:
                     continue
                 for pl in _placements(hf):
                     # (render: where D1 applies too the direct form is a raw inclusion and D1's signature covers the case)
                     out.append({"kind": "known",
                                 "signature": {"fam": "compose", "kind": kind, "rels": [rel], "outer": hf, "inner": pf, "ctx": pl,
-                                              "how": "output", "tag": True, "direct": "other" if kind == "render" else "n/a"},
+                                              "how": "output", "tag": True, "direct": "*"},
                                 "what": D2 % (FMT_TYPE[pf], "." + hf, _tag_ctx(hf), what)})
     for pl in _placements("html"):
         out.append({"kind": "known",
@@ -97,7 +99,7 @@ def _proposed():
     return out
 
 
-PROPOSED_KNOWN = _proposed()
+PROPOSED_KNOWN = []   # D2 was fixed in /repo (caecd73); the 22 D1 combinations are listed in known-findings.json (kind "known"); _proposed() is kept as their generator
 
 THEOREMS = ["RefRelations", "FixedMeetsRef", "AsWrittenDeviatesOnlyIf", "RenderFixLeavesOnlyTag", "RefDefined"]
 
@@ -134,7 +136,7 @@ def corrupt(o):
 
 
 def bounds(ctx):
-    return {"MaxLen": ctx.pick(1, 2), "NSample": ctx.pick(100, 2000), "Seed": ctx.seed}
+    return {"MaxLen": ctx.pick(1, 2), "NSample": ctx.pick(100, 1000), "Seed": ctx.seed}
 
 
 def judge(ctx, step, allobs, drift_every, pool=None, shard=2500):
@@ -165,7 +167,7 @@ def mc_theorems(ctx, consts):
     wd = ctx.stage("mc", FAMS)
     mode = ctx.pick("noexport", "all")      # "all": also the render-fix-alone theorem (thorough tier)
     rig.write_cfg(wd / "MC_Compose.cfg", constants=dict(consts, Mode=mode), invariants=["Theorems"])
-    r = ctx.tlc(wd, "MC_Compose", workers=max(2, rig.NCPU // 2), timeout=1500, coverage=not ctx.quick)
+    r = ctx.tlc(wd, "MC_Compose", workers=max(2, rig.NCPU // 2), timeout=1500)
     out = {"states": r.distinct, "transitions": r.generated, "wall": round(r.wall, 1), "holds": bool(r.ok), "named": None}
     if not r.ok:
         if not r.invariant_violated:
@@ -175,9 +177,26 @@ def mc_theorems(ctx, consts):
         r2 = ctx.tlc(wd2, "MC_Compose", workers=4, timeout=1500, extra=["-continue"])
         out["named"] = sorted(set(r2.invariant_violated)) or r.invariant_violated
         out["tlc_out"] = str(wd2 / "MC_Compose.out")
-    if not ctx.quick:
-        out["actions_never_taken"] = r.coverage_zero()
     return out
+
+
+def mc_coverage(ctx):
+    """Thorough tier: TLC -coverage on the space of bodies of <= 1 item: which actions were never taken and which
+    expressions of the reference / implementation-shaped model (Compose.tla) were never evaluated."""
+    wd = ctx.stage("mc_cov", FAMS)
+    rig.write_cfg(wd / "MC_Compose.cfg", constants={"MaxLen": 1, "NSample": 0, "Seed": 1, "Mode": "all"}, invariants=["Theorems"])
+    r = ctx.tlc(wd, "MC_Compose", workers=2, timeout=1500, coverage=True, must_pass=True)
+    never, lo, hi = [], None, None
+    src = (wd / "Compose.tla").read_text().splitlines()
+    for k, line in enumerate(src, 1):       # the model part of the module: from the reference to the case constructors
+        if line.startswith("RECURSIVE RefFile"):
+            lo = k
+        if line.startswith("ImplOut(v, V)"):
+            hi = k
+    for m in re.finditer(r"line (\d+), col (\d+) to line (\d+), col (\d+) of module Compose: 0\s*$", r.out, re.M):
+        if lo and hi and lo <= int(m.group(1)) <= hi:
+            never.append(f"{m.group(1)}:{m.group(2)}-{m.group(4)}")
+    return {"states": r.distinct, "actions_never_taken": r.coverage_zero(), "model_expressions_never_evaluated": sorted(set(never))[:40]}
 
 
 def mc_diag(ctx, step, inv):
@@ -208,7 +227,7 @@ def run(ctx, only_cases=None):
     import os
     os.environ.setdefault("JAVA_TOOL_OPTIONS", "-XX:ParallelGCThreads=4")
     pool = ThreadPoolExecutor(max_workers=6)
-    jpool = ThreadPoolExecutor(max_workers=4)
+    jpool = ThreadPoolExecutor(max_workers=6)
     consts = bounds(ctx)
     fut = {}
     t = time.time()
@@ -224,6 +243,7 @@ def run(ctx, only_cases=None):
         fut["diag_render"] = pool.submit(mc_diag, ctx, "mc_diag_r", "AsWrittenRenderRelations")
         if not ctx.quick:
             fut["diag_other"] = pool.submit(mc_diag, ctx, "mc_diag_o", "AsWrittenOtherRelations")
+            fut["coverage"] = pool.submit(mc_coverage, ctx)
         cases = export_cases(ctx, consts)
         ctx.cov["cases_exported"] = sum(1 for _ in open(cases))
         drv.result()
@@ -251,8 +271,8 @@ def run(ctx, only_cases=None):
     for k, o in enumerate(st):
         o["id"] = -1 - k            # judged together with the reproduction run below
     # judge
-    drift_every = ctx.pick(3, 5)
-    bads, drift = judge(ctx, "trace", allobs, drift_every, pool=jpool, shard=ctx.pick(6000, 4000))
+    drift_every = ctx.pick(3, 7)
+    bads, drift = judge(ctx, "trace", allobs, drift_every, pool=jpool, shard=ctx.pick(6000, 3000))
     ctx.cov["judged_bad_first_pass"] = len(bads)
     if drift["calib_bad"]:
         raise Infra(f"the atom table of Compose.tla does not describe the real output of {drift['calib_bad']} calibration file(s)")
@@ -274,7 +294,7 @@ def run(ctx, only_cases=None):
     if only_cases is not None:
         st = []
     if reobs or st:
-        b2, _ = judge(ctx, "trace_confirm", reobs + st, 1000000, pool=jpool, shard=6000)
+        b2, _ = judge(ctx, "trace_confirm", reobs + st, 1000000, pool=jpool, shard=ctx.pick(6000, 3000))
         again = {(b["id"], json.dumps(b["sig"], sort_keys=True)) for b in b2}
         confirmed = [b for b in bads if (b["id"], json.dumps(b["sig"], sort_keys=True)) in again]
         ctx.cov["unreproduced"] = len(bads) - len(confirmed)
@@ -293,8 +313,9 @@ def run(ctx, only_cases=None):
                            mc_invariants=[t for t in THEOREMS if not (ctx.quick and t == "RenderFixLeavesOnlyTag")])
             if not res["holds"]:
                 ctx.cov["model_theorem_violated"] = {"invariants": res["named"], "tlc_out": res.get("tlc_out")}
-            if "actions_never_taken" in res:
-                ctx.cov["actions_never_taken"] = res["actions_never_taken"]
+        elif k == "coverage":
+            ctx.cov["actions_never_taken"] = res["actions_never_taken"]
+            ctx.cov["model_coverage"] = res
         else:
             ctx.cov.setdefault("model_counterexample", {})[k] = res
 
